@@ -207,6 +207,37 @@ def main(tier):
                                          "check_default": P.outcome(db.CheckCategoryUnit, "k2", du2)[0] == "ok"})
     finally:
         UnitDatabase.PopSingleton()
+    # on the real table: (a) the verdict does not depend on the dtype of a numpy container (the same amounts as python floats in a list);
+    # (b) nor on what was built before the limits were registered, nor on the construction form
+    from . import export
+    dbr = export.build_db("default")
+    UnitDatabase.PushSingleton(dbr)
+    try:
+        def vd(mk):
+            o = P.outcome(mk)
+            return json.dumps(verdict(o[1])) if o[0] == "ok" else "raised " + o[2]
+        dbr.AddCategory("verif bounded length", "length", default_unit="mm", default_value=50.0, min_value=0.0, max_value=100.0)
+        dbr.AddCategory("verif cold", "temperature", default_unit="degC", default_value=0.0, min_value=-273.15)
+        for dt in (numpy.float32, numpy.float16, numpy.float64):
+            for cat_, unit_, vals_ in (("verif bounded length", "m", [0.05, 0.1]), ("verif bounded length", "m", [0.1]), ("verif bounded length", "m", [0.02, 0.0999]),
+                                       ("verif bounded length", "cm", [10.0, 3.3]), ("verif bounded length", "m", [-1e-9, 0.01]), ("verif bounded length", "in", [3.937, 1.0]),
+                                       ("verif cold", "K", [300.0, -1e-6]), ("verif cold", "K", [1e-3, 5.0]), ("verif cold", "degF", [-459.67, 10.0]), ("verif cold", "degF", [-459.7])):
+                arr_ = numpy.array(vals_, dtype=dt)
+                cons.append({"op": "Same", "call": "verdict of a %s array %r %s against the same amounts as python floats in a list" % (dt.__name__, vals_, unit_),
+                             "a": vd(lambda: Array(cat_, arr_, unit_)), "b": vd(lambda: Array(cat_, [float(x) for x in arr_], unit_))})
+        for u_ in ("m", "cm", "ft"):
+            Scalar(3.0, u_), Array([1.0, 2.0], u_), FractionScalar(1.5, u_)          # built while 'length' has no limits
+        dbr.AddCategory("length", "length", override=True, min_value=0.0, max_value=1000.0)
+        for u_, bad_, good_ in (("m", -1.0, 5.0), ("cm", 200000.0, 5.0), ("ft", -0.5, 10.0), ("km", 2.0, 0.5), ("mm", -3.0, 3.0)):
+            for x_ in (bad_, good_):
+                ref_ = vd(lambda: Scalar("length", x_, u_))
+                for name_, mk_ in (("Scalar(x, u)", lambda: Scalar(x_, u_)), ("Scalar((x, u))", lambda: Scalar((x_, u_))), ("Array([x], u)", lambda: Array([x_], u_)),
+                                   ("Array(numpy, u)", lambda: Array(numpy.array([x_]), u_)), ("FractionScalar(x, u)", lambda: FractionScalar(x_, u_)),
+                                   ("Array('length', [x], u)", lambda: Array("length", [x_], u_))):
+                    cons.append({"op": "Same", "call": "%s with %r %s after limits 0..1000 m were registered for 'length' (values in m, cm, ft existed before)" % (name_, x_, u_),
+                                 "a": vd(mk_), "b": ref_})
+    finally:
+        UnitDatabase.PopSingleton()
     common.judge_trace(rep, bd, cons, "categories registered with limits and valid units (legacy spellings first, base unit absent): consistent defaults", tag="consistent")
     trace = os.path.join(bd, "long.ndjson")
     with open(trace, "w") as f:
